@@ -7,6 +7,7 @@ import Ivg.Lemmas.MdParse4
 import Ivg.Lemmas.PathExamples
 import Ivg.Gen.Tie.GeneratorFields
 import Ivg.Gen.Tie.MdFields
+import Ivg.Gen.Tie.Code.Aff3
 import Ivg.Obligations
 /-!
 # C20 — SVG path data in the generator, transforms, and the Material-Design converter
@@ -685,4 +686,9 @@ end Ivg.Props.C20
   Ivg.Props.C20.parsePath_renderMd,
   Ivg.Gen.Tie.generator_fields_tie,
   Ivg.Gen.Tie.mdPath_fields_tie,
-  Ivg.Gen.Tie.mdCircle_fields_tie]
+  Ivg.Gen.Tie.mdCircle_fields_tie,
+  -- regenerated code (translator, Ivg/Gen/Code) = model, for all inputs: Aff3
+  Ivg.Gen.Tie.mulAff3_code_tie,
+  Ivg.Gen.Tie.mulAff3_code_tie',
+  Ivg.Gen.Tie.translate_code_tie,
+  Ivg.Gen.Tie.scale_code_tie]
